@@ -3,6 +3,8 @@
 package dns
 
 import (
+	"context"
+	"net"
 	"net/netip"
 	"strconv"
 
@@ -11,6 +13,7 @@ import (
 	"github.com/daeuniverse/dae/component/routing/domain_matcher"
 	"github.com/daeuniverse/dae/pkg/config_parser"
 	"github.com/daeuniverse/dae/pkg/trie"
+	dnsmessage "github.com/miekg/dns"
 	"github.com/sirupsen/logrus"
 	vs "github.com/daeuniverse/dae/zz_vs"
 )
@@ -340,4 +343,55 @@ func Verif_C07_response() {
 	got, err := m.Match("example.com.", q.qtype, q.ips, consts.DnsRequestOutboundIndex(q.upstream))
 	vs.Assert("a decision is always reached", err == nil)
 	vs.Assert("verdict of the first matching response rule", uint64(got) == c07Spec(spec, ids[fb], q))
+}
+
+// Verif_C07_response_select: what Dns.ResponseSelect hands to the response matcher: for an answer
+// section of up to three records - address records owned by the question name or by another name
+// (the usual CNAME chain), CNAMEs, arbitrary address bytes - the matcher is asked about the
+// question's name and type, the upstream the answer came from, and exactly the addresses of all
+// A / AAAA records, in order.
+func Verif_C07_response_select() {
+	var gotName string
+	var gotType uint16
+	var gotIps []netip.Addr
+	calls := 0
+	vs.Replace("(*github.com/daeuniverse/dae/component/dns.ResponseMatcher).Match",
+		func(m *ResponseMatcher, qName string, qType uint16, ips []netip.Addr, upstream consts.DnsRequestOutboundIndex) (consts.DnsResponseOutboundIndex, error) {
+			gotName, gotType, gotIps = qName, qType, append([]netip.Addr{}, ips...)
+			calls++
+			return consts.DnsResponseOutboundIndex_Accept, nil
+		})
+	d := &Dns{respMatcher: &ResponseMatcher{}}
+	msg := &dnsmessage.Msg{}
+	msg.Response = true
+	qt := vs.U16("qtype")
+	msg.Question = []dnsmessage.Question{{Name: "www.example.com.", Qtype: qt, Qclass: dnsmessage.ClassINET}}
+	n := vs.Choice("answers", 4)
+	var want []netip.Addr
+	for i := 0; i < n; i++ {
+		tag := "ans" + strconv.Itoa(i)
+		owner := []string{"www.example.com.", "edge.cdn.example.net."}[vs.Choice(tag+".owner", 2)]
+		switch vs.Choice(tag+".kind", 3) {
+		case 0:
+			b := vs.Bytes(tag+".a", 4)
+			msg.Answer = append(msg.Answer, &dnsmessage.A{Hdr: dnsmessage.RR_Header{Name: owner, Rrtype: dnsmessage.TypeA}, A: net.IP(b)})
+			want = append(want, netip.AddrFrom4([4]byte{b[0], b[1], b[2], b[3]}))
+		case 1:
+			b := vs.Bytes(tag+".aaaa", 16)
+			msg.Answer = append(msg.Answer, &dnsmessage.AAAA{Hdr: dnsmessage.RR_Header{Name: owner, Rrtype: dnsmessage.TypeAAAA}, AAAA: net.IP(b)})
+			var a [16]byte
+			copy(a[:], b)
+			want = append(want, netip.AddrFrom16(a))
+		case 2:
+			msg.Answer = append(msg.Answer, &dnsmessage.CNAME{Hdr: dnsmessage.RR_Header{Name: owner, Rrtype: dnsmessage.TypeCNAME}, Target: "edge.cdn.example.net."})
+		}
+	}
+	idx, _, err := d.ResponseSelect(context.Background(), msg, nil)
+	vs.Assert("the matcher's verdict is returned", err == nil && idx == consts.DnsResponseOutboundIndex_Accept && calls == 1)
+	vs.Assert("the matcher is asked about the question", gotName == "www.example.com." && gotType == qt)
+	same := len(gotIps) == len(want)
+	for i := 0; i < len(want) && i < len(gotIps); i++ {
+		same = same && gotIps[i] == want[i]
+	}
+	vs.Assert("and about every address in the answer section, whoever owns the record", same)
 }
